@@ -173,7 +173,7 @@ def memoise_parser():
     S.parse_selection = cached
 
 
-CANON_WATER = {"HOH", "WAT", "SOL", "TIP3"}
+CANON_WATER = {"H2O", "HHO", "OHH", "HOH", "OH2", "SOL", "WAT", "TIP", "TIP2", "TIP3", "TIP4"}   # the VMD list
 CANON_PROTEIN = {"ALA", "ARG", "ASN", "ASP", "CYS", "GLN", "GLU", "GLY", "HIS", "ILE", "LEU", "LYS", "MET", "PHE", "PRO",
                  "SER", "THR", "TRP", "TYR", "VAL"}
 NAIVE = {
